@@ -747,6 +747,17 @@ def check_propagate_labels(rep: Rep, w: Walker) -> None:
     """propagate_labels gives every node the true label of its root."""
     g = ("attr", ("self",), "subgraph")
     stores = [e for e in w.events if e.kind == "store" and e.target[0] == "attr" and e.target[2] == "predicted_label"]
+    # (a value chosen by a helper - `label(i) if root == i else label(root)` - is the two guarded assignments)
+    import dataclasses as _dc
+    split = []
+    for e in stores:
+        v = e.value
+        if v is not None and v[0] == "sel":
+            split.append(_dc.replace(e, value=v[2], guards=e.guards + ((v[1], True),)))
+            split.append(_dc.replace(e, value=v[3], guards=e.guards + ((v[1], False),)))
+        else:
+            split.append(e)
+    stores = split
     rep.fn("PROP-sites", w.entry, "propagate_labels assigns predicted_label", len(stores) >= 1, "no assignment found")
     kinds = Kinds(w)
     from .schema import node_loop
